@@ -128,7 +128,7 @@ Definition mon04 (c : hcase) : N :=
           6 active detectors are not exactly those of the listed environments
           7 calls pending await were not cancelled
           8 a DESTROY hook started while a non-hook task was still owned by the environment
-          9 a destroy request / a creation did not return (watchdog) *)
+          9 a destroy request did not return (watchdog) *)
 Definition gone_checks (ops : list op) (e : N) (prev cur : obs) (keep : bool)
            (created : bool) : list N :=
   let c3 := match ob_env cur e with Some _ => 3 | None => 0 end in
@@ -171,11 +171,12 @@ Definition mon06_step (ops : list op) (prev : obs) (o : op) (cur : obs) : list N
   c6 :: c8 :: specific.
 
 (* a history whose observations stop early: the request at that position did not return within the
-   watchdog time.  For a destroy or a creation that is the property itself (code 9: the teardown /
-   the clean-up tail of a failed creation blocked); for anything else the run is just unusable (90). *)
+   watchdog time.  For a destroy request that is the property itself (code 9: TeardownEnvironment or
+   the task clean-up blocked); for anything else the run is just unusable (90; the harness re-runs
+   such histories first). *)
 Definition hang_code (c : hcase) : N :=
   match nth_error (h_ops c) (length (h_obs c)) with
-  | Some (ODestroy _ _ _ _ _) | Some (OCreate _ _) | Some (OFinish _ _) => 9
+  | Some (ODestroy _ _ _ _ _) => 9
   | _ => 90
   end.
 
